@@ -319,6 +319,181 @@ def run(chk):
         r7.ob("function_less_than: %s" % name, got == want, flt[0].where, flt[0]["q"], "comparator yields %s, expected %s" % (got, want))
     r7.require(12, "ordering scenarios")
 
+    # ------------------------------------------------------------------ R3.8 guards and typed parameters gate the body
+    r8 = chk.rule("R3.8", "a script function's body is entered only when arity and parameter types matched and the guard, evaluated on the same arguments, returned true; otherwise guard_error (next overload)",
+                  "functions with typed parameters and guards: a definition whose guard or types reject the arguments is never run")
+    docalls = [g for g in prog.fns if g["name"] == "do_call" and "Dynamic_Proxy_Function_Impl<" in (g.get("cls") or "") and g["tk"] == "inst"]
+    r8.anchor(docalls, "Dynamic_Proxy_Function_Impl::do_call instantiations")
+    chk.touched(docalls[:1])
+    g = docalls[0]
+    gflow = FnFlow(g)
+    match_bind = None
+    for d in walk(g["body"]):
+        if d.get("k") == "decl":
+            for v in d["vars"]:
+                init = strip_casts(v.get("init") or {})
+                if v.get("bindings") and init.get("k") == "call" and init.get("name") == "call_match_internal":
+                    a0 = strip_casts(init["args"][0]) if init.get("args") else {}
+                    while a0.get("k") == "construct" and a0.get("copy"):
+                        a0 = strip_casts(a0["args"][0])
+                    if a0.get("k") == "ref" and a0.get("rk") == "param" and a0.get("idx") == 0:
+                        match_bind = v["bindings"][0]["vid"]
+    body_calls = [n for n in walk(g["body"]) if n.get("k") == "call" and n.get("op") == "()" and strip_casts(n.get("obj") or {}).get("name") == "m_f"]
+    r8.anchor(body_calls, "calls of the stored body m_f in do_call")
+    gated = match_bind is not None and all(any(t is True and strip_casts(c).get("k") == "ref" and strip_casts(c).get("vid") == match_bind for c, t in gflow.facts(n)) for n in body_calls)
+    throws = [prog.T(g, n.get("tt")) for n in walk(g["body"]) if n.get("k") == "throw" and n.get("tt") is not None]
+    rets_other = [n for n in walk(g["body"]) if n.get("k") == "return" and n.get("e") is not None and not any(x in body_calls for x in walk(n["e"]))]
+    r8.ob("Dynamic_Proxy_Function_Impl::do_call: the body is called only under the first component of call_match_internal(params, ..); the other exit throws guard_error",
+          gated and not rets_other and any(t.endswith("guard_error") for t in throws), g.where, strip_targs(g["q"]),
+          "body calls gated by the match result: %s; returns that are not the body's result: %d; throws %s" % (gated, len(rets_other), throws))
+    cmi = [x for x in prog.fns if x["name"] == "call_match_internal" and (x.get("cls") or "").endswith("Dynamic_Proxy_Function")]
+    tg = [x for x in prog.fns if x["name"] == "test_guard" and (x.get("cls") or "").endswith("Dynamic_Proxy_Function")]
+    r8.anchor(len(cmi) == 1 and len(tg) == 1, "Dynamic_Proxy_Function::call_match_internal / test_guard")
+    chk.touched(cmi + tg)
+    cm = cmi[0]
+    okc, whyc = False, "no `return make_pair(<types matched> && test_guard(vals, ..), ..)` found"
+    for n in walk(cm["body"]):
+        if n.get("k") == "return" and n.get("e") is not None:
+            e = strip_casts(n["e"])
+            while e.get("k") == "construct" and e.get("args") and len(e["args"]) == 1:
+                e = strip_casts(e["args"][0])
+            if e.get("k") == "call" and e.get("name") == "make_pair" and e.get("args"):
+                first = strip_casts(e["args"][0])
+                if first.get("k") == "binop" and first.get("op") == "&&":
+                    l, r = strip_casts(first["lhs"]), strip_casts(first["rhs"])
+                    lok = l.get("k") == "member" and l.get("name") == "first"
+                    rok = r.get("k") == "call" and r.get("name") == "test_guard" and r.get("args") and strip_casts(r["args"][0]).get("rk") == "param" and strip_casts(r["args"][0]).get("idx") == 0
+                    okc = bool(lok and rok)
+                    whyc = "first component is `%s`" % expr_str(prog, cm, first)[:100]
+                else:
+                    whyc = "first component is `%s`: not the conjunction of the type match and the guard" % expr_str(prog, cm, first)[:100]
+    # the type-match lambda: (true, _) without a test only for variadic functions; match() only under size == arity
+    lam_ok, lam_why = True, ""
+    nlam = 0
+    for lam in (x for x in prog.fns if x["kind"] == "lambda" and strip_targs(x["q"]).startswith(strip_targs(cm["q"]) + "::<lambda")):
+        lflow = FnFlow(lam)
+        for n in walk(lam["body"]):
+            if n.get("k") != "return" or n.get("e") is None:
+                continue
+            e = strip_casts(n["e"])
+            while e.get("k") == "construct" and e.get("args") and len(e["args"]) == 1:
+                e = strip_casts(e["args"][0])
+            facts = [(expr_str(prog, lam, c), t) for c, t in lflow.facts(n)]
+            nlam += 1
+            if e.get("k") == "call" and e.get("name") == "make_pair":
+                a = strip_casts(e["args"][0])
+                if a.get("k") == "lit" and a.get("v") is True and not any("m_arity" in c and "<" in c and t for c, t in facts):
+                    lam_ok, lam_why = False, "returns (true, ..) without `m_arity < 0` established (facts: %s)" % facts
+            elif e.get("k") == "call" and e.get("name") == "match":
+                if not any("size()" in c and "==" in c and "m_arity" in c and t for c, t in facts):
+                    lam_ok, lam_why = False, "calls match() without `vals.size() == m_arity` established (facts: %s)" % facts
+            else:
+                lam_ok, lam_why = False, "unrecognised result `%s`" % expr_str(prog, lam, e)[:80]
+    r8.anchor(nlam >= 3, "returns of the type-match closure in call_match_internal (found %d)" % nlam)
+    r8.ob("Dynamic_Proxy_Function::call_match_internal: matched = (arity and parameter types match) && test_guard(same arguments)", okc and lam_ok, cm.where, cm["q"], whyc + "; " + lam_why)
+    t = tg[0]
+    tflow = FnFlow(t)
+    okt, whyt = True, ""
+    nt = 0
+    for n in walk(t["body"]):
+        if n.get("k") != "return" or n.get("e") is None:
+            continue
+        nt += 1
+        e = strip_casts(n["e"])
+        facts = [(expr_str(prog, t, c), tr) for c, tr in tflow.facts(n)]
+        in_handler = any(a.get("k") == "try" and any(n in list(walk(h["body"])) for h in a["handlers"]) for a in tflow.ancestors(n))
+        if e.get("k") == "lit" and e.get("v") is True:
+            if not any("m_guard" in c and tr is False for c, tr in facts):
+                okt, whyt = False, "returns true although a guard exists (facts %s)" % facts
+        elif e.get("k") == "lit" and e.get("v") is False:
+            if not in_handler:
+                okt, whyt = False, "returns false outside the handlers for a guard that could not be called"
+        elif e.get("k") == "call" and e.get("name") == "boxed_cast" and prog.T(t, e.get("t")) == "bool":
+            inner = strip_casts(e["args"][0])
+            callee = expr_str(prog, t, inner)
+            a0 = strip_casts(inner["args"][0]) if inner.get("k") == "call" and inner.get("args") else {}
+            if not ("m_guard" in callee and a0.get("rk") == "param" and a0.get("idx") == 0):
+                okt, whyt = False, "the guard is not applied to the call's own arguments: %s" % callee[:80]
+        else:
+            okt, whyt = False, "unrecognised result `%s`" % expr_str(prog, t, e)[:80]
+    r8.anchor(nt >= 3, "returns of test_guard")
+    r8.ob("Dynamic_Proxy_Function::test_guard: no guard -> true; guard -> its boolean result on the same arguments; a guard that cannot be called -> false", okt, t.where, t["q"], whyt)
+    r8.require(3, "obligations")
+
+    # ------------------------------------------------------------------ R3.9 typed parameters: the match table
+    r9 = chk.rule("R3.9", "Param_Types::match, interpreted on one parameter over all combinations of its tests, accepts exactly: untyped; script object of the named class (or `Dynamic_Object`); "
+                          "C++ value of exactly the named type; C++ value convertible to it (marked as needing conversion) - and rejects unknown type names and everything else",
+                  "functions with typed parameters: a definition is applicable only to arguments of the declared types")
+    pm = [x for x in prog.fns if x["name"] == "match" and (x.get("cls") or "").endswith("dispatch::Param_Types")]
+    r9.anchor(len(pm) == 1, "Param_Types::match")
+    chk.touched(pm)
+    for name, (got, want) in sorted(param_match_table(prog, pm[0]).items()):
+        r9.ob("Param_Types::match: %s" % name, got == want, pm[0].where, pm[0]["q"], "interpretation yields %s, expected %s" % (got, want))
+    r9.require(10, "match scenarios")
+
+    # ------------------------------------------------------------------ R3.10 script-defined classes
+    r10 = chk.rule("R3.10", "methods and attributes of a script class apply only to objects of that class; a definition named like its class is the constructor, which creates the object, passes it first and returns it",
+                   "script-defined classes with attributes, constructors and methods")
+    DOF = "chaiscript::dispatch::detail::Dynamic_Object_Function"
+    DOC = "chaiscript::dispatch::detail::Dynamic_Object_Constructor"
+    dof_call = [x for x in prog.fns if (x.get("cls") or "") == DOF and x["name"] == "do_call"]
+    doc_call = [x for x in prog.fns if (x.get("cls") or "") == DOC and x["name"] == "do_call"]
+    tm = [x for x in prog.fns if (x.get("cls") or "") == DOF and x["name"] == "dynamic_object_typename_match"]
+    r10.anchor(len(dof_call) == 1 and len(doc_call) == 1 and len(tm) == 2, "Dynamic_Object_Function::do_call, Dynamic_Object_Constructor::do_call, dynamic_object_typename_match (2 overloads)")
+    chk.touched(dof_call + doc_call + tm)
+    g = dof_call[0]
+    gflow = FnFlow(g)
+    inner = [n for n in walk(g["body"]) if n.get("k") == "call" and n.get("op") == "()" and "m_func" in expr_str(prog, g, n.get("obj") or {})]
+    okg = bool(inner) and all(any(t is True and strip_casts(c).get("k") == "call" and strip_casts(c).get("name") == "dynamic_object_typename_match" and
+                                  strip_casts(strip_casts(c)["args"][0]).get("rk") == "param" and strip_casts(strip_casts(c)["args"][0]).get("idx") == 0 and
+                                  "m_type_name" in expr_str(prog, g, strip_casts(c)["args"][1]) for c, t in gflow.facts(n)) for n in inner)
+    throws = [prog.T(g, n.get("tt")) for n in walk(g["body"]) if n.get("k") == "throw" and n.get("tt") is not None]
+    rets_other = [n for n in walk(g["body"]) if n.get("k") == "return" and n.get("e") is not None and not any(x in inner for x in walk(n["e"]))]
+    r10.ob("Dynamic_Object_Function::do_call: the method body is called only under dynamic_object_typename_match(params, m_type_name, ..); otherwise guard_error",
+           okg and not rets_other and any(t.endswith("guard_error") for t in throws), g.where, g["q"], "gated: %s, other returns: %d, throws %s" % (okg, len(rets_other), throws))
+    for name, (got, want) in sorted(typename_match_table(prog, tm).items()):
+        r10.ob("dynamic_object_typename_match: %s" % name, got == want, tm[0].where, tm[0]["q"], "interpretation yields %s, expected %s" % (got, want))
+    # constructor: new object of the class, first argument, arguments in order, the object is the result
+    c = doc_call[0]
+    locs = {v["vid"]: v for d in walk(c["body"]) if d.get("k") == "decl" for v in d["vars"]}
+    objs = [v for v in locs.values() if v.get("init") and any(x.get("k") in ("construct", "call") and "Dynamic_Object" in prog.T(c, x.get("t")) and "Constructor" not in prog.T(c, x.get("t"))
+                                                             for x in walk(v["init"])) and "m_type_name" in expr_str(prog, c, v["init"]) and prog.T(c, v["t"]).endswith("Boxed_Value")]
+    vecs = [v for v in locs.values() if "vector<" in prog.T(c, v["t"]) and v.get("init") and objs and any(x.get("k") == "ref" and x.get("vid") == objs[0]["vid"] for x in walk(v["init"]))]
+    appended = [n for n in walk(c["body"]) if n.get("k") == "call" and n.get("name") == "insert" and vecs and strip_casts(n.get("obj") or {}).get("vid") == vecs[0]["vid"] and
+                "end()" in expr_str(prog, c, n["args"][0]) and "params.begin()" in expr_str(prog, c, n["args"][1]) and "params.end()" in expr_str(prog, c, n["args"][2])]
+    called = [n for n in walk(c["body"]) if n.get("k") == "call" and n.get("op") == "()" and "m_func" in expr_str(prog, c, n.get("obj") or {}) and vecs and
+              any(x.get("k") == "ref" and x.get("vid") == vecs[0]["vid"] for x in walk(n["args"][0]))]
+    rets = [n for n in walk(c["body"]) if n.get("k") == "return" and n.get("e") is not None]
+    ret_obj = bool(rets) and all(any(x.get("k") == "ref" and objs and x.get("vid") == objs[0]["vid"] for x in walk(r["e"])) and not any(x in called for x in walk(r["e"])) for r in rets)
+    order_ok = bool(appended and called) and appended[0]["l"] <= called[0]["l"]
+    r10.ob("Dynamic_Object_Constructor::do_call: creates Dynamic_Object(m_type_name), calls the body with (object, arguments in order), returns the object",
+           len(objs) == 1 and len(vecs) == 1 and order_ok and ret_obj, c.where, c["q"],
+           "new object: %d, parameter vector starting with it: %d, arguments appended in order before the call: %s, result is the object: %s" % (len(objs), len(vecs), order_ok, ret_obj))
+    meths = [x for x in prog.fns if strip_targs(x.get("cls") or "") == "chaiscript::eval::Method_AST_Node" and x["name"] == "eval_internal" and x["tk"] == "inst"]
+    r10.anchor(meths, "Method_AST_Node::eval_internal")
+    chk.touched(meths[:1])
+    mfn = meths[0]
+    mflow = FnFlow(mfn)
+    okm, whym = True, []
+    kinds = {}
+    for n in walk(mfn["body"]):
+        if n.get("k") == "call" and n.get("name") == "make_shared":
+            t = prog.T(mfn, n.get("t"))
+            kind = "ctor" if DOC in t else ("method" if DOF in t else None)
+            if kind is None:
+                continue
+            facts = [(expr_str(prog, mfn, cnd), tr) for cnd, tr in mflow.facts(n)]
+            same = [tr for cnd, tr in facts if cnd.replace(" ", "").strip("()") in ("==function_name,class_name", "==class_name,function_name")]
+            kinds[kind] = same
+            if same != [kind == "ctor"]:
+                okm = False
+                whym.append("%s wrapper built under %s" % (kind, facts))
+            if "class_name" not in expr_str(prog, mfn, n["args"][0]):
+                okm = False
+                whym.append("%s wrapper is not bound to the class name" % kind)
+    r10.ob("Method_AST_Node: `def C::C` builds the constructor wrapper, any other name a method wrapper bound to class C", okm and set(kinds) == {"ctor", "method"}, mfn.where, strip_targs(mfn["q"]), "; ".join(whym) or str(kinds))
+    r10.require(8, "obligations")
+
     # ------------------------------------------------------------------ R3.4
     r4 = chk.rule("R3.4", "block-structured constructs evaluate their children inside a scope of their own",
                   "block-scoped variables with shadowing; nothing declared inside a block, loop, case or try is visible after it")
@@ -374,7 +549,35 @@ def run(chk):
     add = [n for n in walk(ad["body"]) if n.get("k") == "call" and n.get("name") in ("add_object", "add_get_object")]
     okad = len(cl) == 1 and len(add) == 1 and any(x.get("k") == "call" and x.get("name") == "eval" for x in walk(cl[0])) and cl[0]["l"] <= add[0]["l"]
     r5.ob("Assign_Decl (`var x = e`): the declared variable holds clone_if_necessary(e)", okad, ad.where, ad["q"], "clone: %d, add_object: %d" % (len(cl), len(add)))
-    r5.require(4, "obligations")
+    # clone_if_necessary hands back either a fresh copy or the temporary itself with its temporary-flag cleared: a stored value
+    # that still counts as a temporary would be aliased (not copied) by the next `var y = x`
+    cin = [g for g in prog.fns if g["name"] == "clone_if_necessary" and g["q"].startswith("chaiscript::eval::detail::")]
+    r5.anchor(cin, "eval::detail::clone_if_necessary")
+    g = cin[0]
+    chk.touched(cin[:1])
+    flowc = FnFlow(g)
+    pvid = g["params"][0]["vid"]
+    nret = 0
+    badret = []
+    for n in walk(g["body"]):
+        if n.get("k") != "return" or n.get("e") is None:
+            continue
+        nret += 1
+        e = strip_casts(n["e"])
+        while e.get("k") == "call" and e.get("name") in ("move", "forward") and e.get("args"):
+            e = strip_casts(e["args"][0])
+        while e.get("k") == "construct" and len(e.get("args", [])) == 1 and strip_casts(e["args"][0]).get("vid") == pvid:
+            e = strip_casts(e["args"][0])
+        if e.get("k") == "ref" and e.get("vid") == pvid:
+            cleared = any(x.get("k") == "call" and x.get("name") == "reset_return_value" and x.get("obj") is not None and strip_casts(x["obj"]).get("vid") == pvid
+                          for x in flowc.dominating(n))
+            if not cleared:
+                badret.append(n)
+    r5.ob("clone_if_necessary: a value that is handed back uncopied has its temporary-flag cleared first", nret >= 3 and not badret,
+          "%s:%d" % (g["file"], (badret[0] if badret else g["body"])["l"]), g["q"],
+          "the incoming temporary is returned still flagged as a return value: stored in a variable, attribute or container literal it is later aliased instead of copied "
+          "(`var a; a = \"ab\"+\"cd\"; var b = a; b += \"!\"` changes a) and a second assignment to it is refused as 'assign to temporary'")
+    r5.require(5, "obligations")
 
     # ------------------------------------------------------------------ R3.6
     r6 = chk.rule("R3.6", "lambda captures are evaluated when the lambda expression is evaluated, not when the lambda is called",
@@ -497,3 +700,213 @@ def ordering_table(prog, f):
         "Boxed_Number catch-all not before a specific parameter": (dict(base, l_number=True), False),
     }
     return {name: (decide(env), want) for name, (env, want) in sc.items()}
+
+
+# ------------------------------------------------------------------ R3.9 helper: Param_Types::match as a decision table
+def param_match_table(prog, f):
+    """interpret the body of Param_Types::match for a one-parameter list under an assignment of its atomic tests;
+    result: 'reject' | 'accept' | 'accept+convert'"""
+    ATOMS = [
+        (r"^m_has_types$", "has_types"),
+        (r"^vals\.size\(\) != m_types\.size\(\)$", "size_differs"),
+        (r"^name\.empty\(\)$", "untyped"),
+        (r"^bv\.get_type_info\(\)\.bare_equal\(dynamic_object_type_info\)$", "is_script_object"),
+        (r"^\(?== name,'Dynamic_Object'\)?$", "declared_Dynamic_Object"),
+        (r"^\(?== d\.get_type_name\(\),name\)?$", "class_name_equal"),
+        (r"^ti\.is_undef\(\)$", "type_unknown"),
+        (r"^bv\.get_type_info\(\)\.bare_equal\(ti\)$", "same_type"),
+        (r"converts\(ti,bv\.get_type_info\(\)\)$", "convertible"),
+    ]
+
+    def atom(txt):
+        for pat, name in ATOMS:
+            if re.search(pat, txt):
+                return name
+        return None
+
+    def ev(e, env):
+        e = strip_casts(e)
+        k = e.get("k")
+        if k == "lit":
+            return e.get("v")
+        if k == "unop" and e.get("op") == "!":
+            return not ev(e["e"], env)
+        if k == "binop" and e.get("op") in ("&&", "||"):
+            a = ev(e["lhs"], env)
+            if e["op"] == "&&":
+                return a and ev(e["rhs"], env)
+            return a or ev(e["rhs"], env)
+        if k == "ref" and e.get("rk") == "local" and e.get("name") in env["locals"]:
+            return env["locals"][e["name"]]
+        if k == "paren":
+            return ev(e["e"], env)
+        a = atom(expr_str(prog, f, e))
+        if a is None:
+            raise AnalysisBroken("C03 R3.9: unrecognised test in Param_Types::match: %s" % expr_str(prog, f, e)[:80])
+        return env[a]
+
+    class Ret(Exception):
+        def __init__(self, v):
+            self.v = v
+
+    def pair(e, env):
+        e = strip_casts(e)
+        while e.get("k") == "construct" and e.get("args") and len(e["args"]) == 1:
+            e = strip_casts(e["args"][0])
+        if e.get("k") != "call" or e.get("name") != "make_pair":
+            raise AnalysisBroken("C03 R3.9: unrecognised result in Param_Types::match: %s" % expr_str(prog, f, e)[:80])
+        return ev(e["args"][0], env), ev(e["args"][1], env)
+
+    def ex(n, env):
+        if n is None:
+            return
+        k = n.get("k")
+        if k == "block":
+            for x in n.get("s", []):
+                ex(x, env)
+        elif k == "decl":
+            for v in n["vars"]:
+                init = strip_casts(v.get("init") or {})
+                if init.get("k") == "lit" and isinstance(init.get("v"), bool):
+                    env["locals"][v["name"]] = init["v"]
+        elif k == "if":
+            if ev(n["cond"], env):
+                ex(n.get("then"), env)
+            else:
+                ex(n.get("else"), env)
+        elif k == "return":
+            raise Ret(pair(n["e"], env))
+        elif k == "for":
+            ex(n.get("body"), env)      # one parameter: the body runs once
+        elif k == "try":
+            ex(n.get("body"), env)      # the cast of a value already tested to be a script object does not fail
+        elif k == "assign" or (k == "expr" and isinstance(n.get("e"), dict) and n["e"].get("k") == "assign"):
+            a = n if k == "assign" else n["e"]
+            l = strip_casts(a["lhs"])
+            if l.get("k") == "ref" and l.get("name") in env["locals"]:
+                env["locals"][l["name"]] = ev(a["rhs"], env)
+        elif k in ("expr", "null"):
+            inner = n.get("e")
+            if isinstance(inner, dict):
+                ex(inner, env)
+        else:
+            raise AnalysisBroken("C03 R3.9: unrecognised statement kind %r in Param_Types::match (line %s)" % (k, n.get("l")))
+
+    def decide(**kw):
+        env = dict(has_types=True, size_differs=False, untyped=False, is_script_object=False, declared_Dynamic_Object=False, class_name_equal=False,
+                   type_unknown=False, same_type=False, convertible=False, locals={})
+        env.update(kw)
+        try:
+            ex(f["body"], env)
+        except Ret as r:
+            m, c = r.v
+            return "reject" if not m else ("accept+convert" if c else "accept")
+        return "no result"
+
+    sc = {
+        "a parameter list without any type accepts": (decide(has_types=False), "accept"),
+        "a different number of arguments is rejected": (decide(size_differs=True), "reject"),
+        "an untyped parameter accepts anything": (decide(untyped=True), "accept"),
+        "script object of the declared class": (decide(is_script_object=True, class_name_equal=True), "accept"),
+        "script object, parameter declared Dynamic_Object": (decide(is_script_object=True, declared_Dynamic_Object=True), "accept"),
+        "script object of another class": (decide(is_script_object=True, type_unknown=True), "reject"),
+        "script object of another class whose name is also a C++ type": (decide(is_script_object=True, convertible=True), "reject"),
+        "C++ value, unknown type name": (decide(type_unknown=True), "reject"),
+        "C++ value, unknown type name (a conversion exists for the undefined type)": (decide(type_unknown=True, convertible=True), "reject"),
+        "C++ value of exactly the declared type": (decide(same_type=True), "accept"),
+        "C++ value convertible to the declared type": (decide(convertible=True), "accept+convert"),
+        "C++ value of another, unconvertible type": (decide(), "reject"),
+    }
+    return sc
+
+
+# ------------------------------------------------------------------ R3.10 helper
+def typename_match_table(prog, fns):
+    """interpret the two overloads of Dynamic_Object_Function::dynamic_object_typename_match"""
+    one = [f for f in fns if "Function_Params" not in prog.T(f, f["params"][0]["t"])]
+    many = [f for f in fns if "Function_Params" in prog.T(f, f["params"][0]["t"])]
+    if len(one) != 1 or len(many) != 1:
+        raise AnalysisBroken("C03 R3.10: overloads of dynamic_object_typename_match not recognised")
+    ATOMS = [
+        (r"^bv\.get_type_info\(\)\.bare_equal\(.*m_doti\)$", "is_script_object"),
+        (r"^\(?== name,'Dynamic_Object'\)?$", "declared_Dynamic_Object"),
+        (r"^\(?== d\.get_type_name\(\),name\)?$", "class_name_equal"),
+        (r"^ti(\.operator bool\(\))?$", "cpp_type_known"),
+        (r"^bv\.get_type_info\(\)\.bare_equal\(\(ti \* \)\)$", "same_cpp_type"),
+        (r"^bvs\.empty\(\)$", "no_arguments"),
+    ]
+
+    def run(f, env):
+        def atom(txt):
+            for pat, name in ATOMS:
+                if re.search(pat, txt):
+                    return name
+            return None
+
+        def ev(e):
+            e = strip_casts(e)
+            k = e.get("k")
+            if k == "lit":
+                return e.get("v")
+            if k == "unop" and e.get("op") == "!":
+                return not ev(e["e"])
+            if k == "binop" and e.get("op") == "&&":
+                return ev(e["lhs"]) and ev(e["rhs"])
+            if k == "binop" and e.get("op") == "||":
+                return ev(e["lhs"]) or ev(e["rhs"])
+            if k == "call" and e.get("name") == "dynamic_object_typename_match":
+                a0 = expr_str(prog, f, e["args"][0])
+                if a0.replace(" ", "") not in ("bvs[0]", "(bvs[]0)", "bvs.operator[](0)"):
+                    raise AnalysisBroken("C03 R3.10: the parameter-list overload does not test bvs[0] but %s" % a0)
+                return env["first"]
+            a = atom(expr_str(prog, f, e))
+            if a is None:
+                raise AnalysisBroken("C03 R3.10: unrecognised test in dynamic_object_typename_match: %s" % expr_str(prog, f, e)[:80])
+            return env[a]
+
+        class Ret(Exception):
+            pass
+
+        def ex(n):
+            if n is None:
+                return
+            k = n.get("k")
+            if k == "block":
+                for x in n.get("s", []):
+                    ex(x)
+            elif k == "if":
+                ex(n.get("then") if ev(n["cond"]) else n.get("else"))
+            elif k == "try":
+                ex(n.get("body"))
+            elif k == "return":
+                r = Ret()
+                r.v = ev(n["e"])
+                raise r
+            elif k in ("decl", "expr", "null"):
+                pass
+            else:
+                raise AnalysisBroken("C03 R3.10: unrecognised statement kind %r in dynamic_object_typename_match" % k)
+        try:
+            ex(f["body"])
+        except Ret as r:
+            return bool(r.v)
+        return None
+
+    def single(**kw):
+        env = dict(is_script_object=False, declared_Dynamic_Object=False, class_name_equal=False, cpp_type_known=False, same_cpp_type=False)
+        env.update(kw)
+        return run(one[0], env)
+
+    sc = {
+        "script object of the class": (single(is_script_object=True, class_name_equal=True), True),
+        "script object, method declared for Dynamic_Object": (single(is_script_object=True, declared_Dynamic_Object=True), True),
+        "script object of another class": (single(is_script_object=True), False),
+        "script object of another class although the class name is also a C++ type": (single(is_script_object=True, cpp_type_known=True, same_cpp_type=False), False),
+        "C++ object of the registered type of that name": (single(cpp_type_known=True, same_cpp_type=True), True),
+        "C++ object of another type": (single(cpp_type_known=True), False),
+        "C++ object, no C++ type of that name": (single(), False),
+        "no arguments at all": (run(many[0], dict(no_arguments=True, first=True)), False),
+        "first argument decides (matching)": (run(many[0], dict(no_arguments=False, first=True)), True),
+        "first argument decides (not matching)": (run(many[0], dict(no_arguments=False, first=False)), False),
+    }
+    return sc
